@@ -1,6 +1,317 @@
-//! syntactic frame scans (filled in later)
-use std::collections::HashMap;
+//! Syntactic frame scans (DESIGN §4.3 P2, §6 C19).
+//!
+//! `vx scan frame --src <lexer dir>`: the `modifies` clause of every method of `impl Lexer` that is NOT a primitive:
+//!   the fields INV speaks about (cursor, buffer, cur_token_*, checkpoint, errors, source, source_len) are written only
+//!   through the primitives whose bodies are verified (U02, U03, U09) — checked syntactically over every `.rs` under
+//!   `lexer/` (child modules see Lexer's private fields).
+//! `vx scan shared_state --src <lexer dir>`: nothing outside a `Lexer` value can carry state from one call to another:
+//!   no `static mut`, no interior mutability, no thread locals, no I/O or clock/env access outside debug-only code; the
+//!   debug-only observer state (`prev_char`, `last_state`) is read only in debug-only code.
+//! Output: one JSON object {sites, violations:[{where, what}], samples, detail, trusted}. Exit 0 unless the scan itself failed.
+use std::collections::{BTreeMap, HashMap};
+use syn::spanned::Spanned;
+use syn::visit::Visit;
 
-pub fn run(_pos: &[String], _opts: &HashMap<String, String>) -> Result<i32, String> {
-    Err("no scans yet".into())
+/// Lexer fields INV depends on
+const WATCHED: &[&str] = &["cursor", "buffer", "cur_token_byte_offset", "cur_token_start", "cur_token_line", "checkpoint", "errors", "source", "source_len"];
+
+/// methods of the field's type that do not mutate it (receivers `&self`); everything else counts as a write
+fn read_only(field: &str) -> &'static [&'static str] {
+    match field {
+        "cursor" => &["peek", "peek_next", "chars", "as_str", "clone", "char_offset", "remaining_len", "prev_char"],
+        "buffer" => &["last_token_info", "last_token_info_on_default_channel", "next_string_literal_start", "token_count", "line_count",
+                      "iter_token_infos", "last_line_info", "last_token", "last_line"],
+        "errors" => &["len", "is_empty", "last", "iter"],
+        "checkpoint" => &["is_none", "is_some", "as_ref"],
+        "source" => &["get", "len", "as_bytes", "chars", "is_char_boundary", "starts_with"],
+        // Copy newtypes: conversions read the value
+        "cur_token_byte_offset" | "cur_token_start" | "cur_token_line" | "source_len" => &["into", "get", "clone"],
+        _ => &[],
+    }
+}
+
+/// (field, how) -> functions in which that write is allowed (the primitives, all under contract)
+fn allowed(field: &str, how: &str) -> &'static [&'static str] {
+    match (field, how) {
+        // monotone cursor moves preserve I1 (U02 contracts): allowed everywhere
+        ("cursor", "advance") | ("cursor", "advance_by") | ("cursor", "eat_char") | ("cursor", "eat_while") => &["*"],
+        ("cursor", "assign") => &["rollback"],
+        // `&mut self.cursor` is handed to the identifier scanners of macro.rs, which use only the Cursor methods above
+        ("cursor", "&mut") => &["lex_macro_identifier"],
+        ("buffer", "add_line") => &["add_line"],
+        ("buffer", "add_token") => &["emit_token", "emit_token_at_mark", "finalize_lexing", "update_last_token"],
+        ("buffer", "insert_token") => &["lex_maybe_macro_call_args_or_label"],
+        ("buffer", "add_string_literal") => &["add_string_literal_from_src", "lex_single_quoted_str", "lex_double_quoted_literal"],
+        ("buffer", "last_token_info_mut") => &["update_last_token", "lex_maybe_macro_call_args_or_label"],
+        // label retyping: a field-restricted write (channel/type/payload of one token; offsets untouched)
+        ("buffer", "last_token_info_on_default_channel_mut") => &["lex_maybe_macro_call_args_or_label"],
+        ("buffer", "checkpoint") => &["checkpoint"],
+        ("buffer", "rollback") => &["rollback"],
+        ("buffer", "into_detached") => &["lex"],
+        ("cur_token_byte_offset", "assign") | ("cur_token_start", "assign") | ("cur_token_line", "assign") => &["start_token", "rollback"],
+        ("checkpoint", "assign") => &["checkpoint", "clear_checkpoint"],
+        ("checkpoint", "take") => &["rollback"],
+        ("errors", "push") => &["emit_error", "emit_error_info"],
+        ("errors", "truncate") => &["rollback"],
+        _ => &[],
+    }
+}
+
+struct Site {
+    file: String,
+    line: usize,
+    func: String,
+    field: String,
+    how: String,
+}
+
+struct V<'a> {
+    file: &'a str,
+    func: String,
+    sites: Vec<Site>,
+}
+
+fn self_field(e: &syn::Expr) -> Option<String> {
+    // self.<field>  (possibly wrapped in parens / further field accesses handled by callers)
+    if let syn::Expr::Field(f) = e {
+        if let syn::Expr::Path(p) = &*f.base {
+            if p.path.is_ident("self") {
+                if let syn::Member::Named(id) = &f.member {
+                    return Some(id.to_string());
+                }
+            }
+        }
+        // self.<field>.<sub>...
+        return self_field(&f.base);
+    }
+    if let syn::Expr::Paren(p) = e {
+        return self_field(&p.expr);
+    }
+    if let syn::Expr::Index(i) = e {
+        return self_field(&i.expr);
+    }
+    None
+}
+
+impl<'a> V<'a> {
+    fn push(&mut self, sp: proc_macro2::Span, field: String, how: &str) {
+        if WATCHED.contains(&field.as_str()) {
+            self.sites.push(Site { file: self.file.to_string(), line: sp.start().line, func: self.func.clone(), field, how: how.to_string() });
+        }
+    }
+}
+
+impl<'a, 'ast> Visit<'ast> for V<'a> {
+    fn visit_impl_item_fn(&mut self, f: &'ast syn::ImplItemFn) {
+        let old = std::mem::replace(&mut self.func, f.sig.ident.to_string());
+        syn::visit::visit_impl_item_fn(self, f);
+        self.func = old;
+    }
+    fn visit_item_fn(&mut self, f: &'ast syn::ItemFn) {
+        let old = std::mem::replace(&mut self.func, f.sig.ident.to_string());
+        syn::visit::visit_item_fn(self, f);
+        self.func = old;
+    }
+    fn visit_expr_assign(&mut self, a: &'ast syn::ExprAssign) {
+        if let Some(fld) = self_field(&a.left) {
+            self.push(a.span(), fld, "assign");
+        }
+        syn::visit::visit_expr_assign(self, a);
+    }
+    fn visit_expr_binary(&mut self, b: &'ast syn::ExprBinary) {
+        use syn::BinOp::*;
+        if matches!(b.op, AddAssign(_) | SubAssign(_) | MulAssign(_) | DivAssign(_) | RemAssign(_) | BitXorAssign(_) | BitAndAssign(_) | BitOrAssign(_) | ShlAssign(_) | ShrAssign(_)) {
+            if let Some(fld) = self_field(&b.left) {
+                self.push(b.span(), fld, "assign");
+            }
+        }
+        syn::visit::visit_expr_binary(self, b);
+    }
+    fn visit_expr_reference(&mut self, r: &'ast syn::ExprReference) {
+        if r.mutability.is_some() {
+            if let Some(fld) = self_field(&r.expr) {
+                self.push(r.span(), fld, "&mut");
+            }
+        }
+        syn::visit::visit_expr_reference(self, r);
+    }
+    fn visit_expr_method_call(&mut self, m: &'ast syn::ExprMethodCall) {
+        if let Some(fld) = self_field(&m.receiver) {
+            // only a direct `self.<field>.method(..)` is a call on the field itself; `self.f.g.method()` is a write into f
+            let direct = matches!(&*m.receiver, syn::Expr::Field(f) if matches!(&*f.base, syn::Expr::Path(p) if p.path.is_ident("self")));
+            let name = m.method.to_string();
+            if !(direct && read_only(&fld).contains(&name.as_str())) {
+                self.push(m.span(), fld, if direct { &name } else { "assign" });
+            }
+        }
+        syn::visit::visit_expr_method_call(self, m);
+    }
+}
+
+fn parse_dir(src: &str) -> Result<Vec<(String, String, syn::File)>, String> {
+    let mut out = vec![];
+    let mut names: Vec<_> = std::fs::read_dir(src).map_err(|e| format!("{src}: {e}"))?.filter_map(|e| e.ok()).map(|e| e.path()).collect();
+    names.sort();
+    for p in names {
+        if p.extension().map(|e| e == "rs").unwrap_or(false) {
+            let text = std::fs::read_to_string(&p).map_err(|e| e.to_string())?;
+            let ast = syn::parse_file(&text).map_err(|e| format!("{}: {e}", p.display()))?;
+            out.push((p.file_name().unwrap().to_string_lossy().to_string(), text, ast));
+        }
+    }
+    Ok(out)
+}
+
+fn frame(src: &str) -> Result<serde_json::Value, String> {
+    let files = parse_dir(src)?;
+    let mut sites = vec![];
+    for (name, _text, ast) in &files {
+        if name == "tests.rs" {
+            continue;
+        }
+        let mut v = V { file: name, func: String::new(), sites: vec![] };
+        // skip #[cfg(test)] modules
+        for it in &ast.items {
+            if let syn::Item::Mod(m) = it {
+                if m.attrs.iter().any(|a| quote::quote!(#a).to_string().contains("test")) {
+                    continue;
+                }
+            }
+            v.visit_item(it);
+        }
+        sites.extend(v.sites);
+    }
+    let mut violations = vec![];
+    let mut by_kind: BTreeMap<String, usize> = BTreeMap::new();
+    for s in &sites {
+        *by_kind.entry(format!("{}.{}", s.field, s.how)).or_default() += 1;
+        let al = allowed(&s.field, &s.how);
+        // buffer.rs / cursor.rs methods use `self.<field>` for their OWN fields, not Lexer's: only mod.rs and its child
+        // modules that take a Lexer are relevant; cursor.rs/buffer.rs/text.rs define other types
+        if s.file == "cursor.rs" || s.file == "buffer.rs" || s.file == "text.rs" || s.file == "error.rs" || s.file == "lexer_mode.rs" {
+            continue;
+        }
+        if !(al.contains(&"*") || al.contains(&s.func.as_str())) {
+            violations.push(serde_json::json!({"where": format!("{}:{} fn {}", s.file, s.line, s.func),
+                "what": format!("writes Lexer.{} ({}) outside the primitives under contract", s.field, s.how)}));
+        }
+    }
+    let samples: Vec<_> = sites.iter().take(6).map(|s| serde_json::json!({"site": format!("{}:{} fn {}", s.file, s.line, s.func), "field": s.field, "how": s.how})).collect();
+    Ok(serde_json::json!({
+        "sites": sites.len(), "violations": violations, "samples": samples, "detail": by_kind,
+        "trusted": ["P2 is a syntactic scan (syn AST of every .rs under lexer/): writes through raw pointers, transmute or macros that expand to field writes are not seen; `&mut self.cursor` handed to macro.rs::lex_macro_call_stat_or_label is trusted to use Cursor methods only"],
+    }))
+}
+
+fn shared_state(src: &str) -> Result<serde_json::Value, String> {
+    let mut files = parse_dir(src)?;
+    // also the crate root
+    let root = std::path::Path::new(src).parent().map(|p| p.join("lib.rs"));
+    if let Some(r) = root {
+        if let Ok(text) = std::fs::read_to_string(&r) {
+            if let Ok(ast) = syn::parse_file(&text) {
+                files.push(("../lib.rs".into(), text, ast));
+            }
+        }
+    }
+    let banned = ["static mut", "thread_local!", "RefCell", "Cell<", "UnsafeCell", "Mutex", "RwLock", "Atomic", "lazy_static", "OnceCell", "OnceLock",
+                  "std::env", "std::fs", "std::time", "SystemTime", "Instant::", "rand::", "std::io", "std::process", "std::net"];
+    let mut violations = vec![];
+    let mut sites = 0usize;
+    let mut detail: BTreeMap<String, usize> = BTreeMap::new();
+    for (name, text, ast) in &files {
+        // statics must be immutable
+        for it in &ast.items {
+            if let syn::Item::Static(s) = it {
+                sites += 1;
+                *detail.entry("static items".into()).or_default() += 1;
+                if !matches!(s.mutability, syn::StaticMutability::None) {
+                    violations.push(serde_json::json!({"where": format!("{}:{}", name, s.span().start().line), "what": format!("static mut {}", s.ident)}));
+                }
+            }
+        }
+        let mut in_test = false;
+        let mut depth_at_test: i64 = -1;
+        let mut depth: i64 = 0;
+        // debug-only regions: the item / statement / block that follows `#[cfg(debug_assertions)]`
+        let mut dbg_pending: Option<i64> = None;
+        let mut dbg_until: Option<i64> = None;
+        let lines: Vec<&str> = text.lines().collect();
+        for (i, line) in lines.iter().enumerate() {
+            let code = line.split("//").next().unwrap_or("");
+            if code.contains("#[cfg(test)]") {
+                in_test = true;
+                depth_at_test = depth;
+            }
+            let before = depth;
+            depth += code.matches('{').count() as i64 - code.matches('}').count() as i64;
+            if in_test && depth <= depth_at_test && code.contains('}') {
+                in_test = false;
+            }
+            let mut in_dbg = dbg_until.is_some();
+            if code.contains("#[cfg(debug_assertions)]") && dbg_until.is_none() {
+                dbg_pending = Some(before);
+                in_dbg = true;
+            } else if let Some(d) = dbg_pending {
+                in_dbg = true;
+                if depth > d {
+                    dbg_until = Some(d);
+                    dbg_pending = None;
+                } else if code.contains(';') || code.contains(',') || code.trim_end().ends_with('}') {
+                    dbg_pending = None;
+                }
+            }
+            if let Some(d) = dbg_until {
+                if depth <= d {
+                    dbg_until = None;
+                }
+            }
+            if in_test {
+                continue;
+            }
+            sites += 1;
+            for b in banned {
+                if code.contains(b) {
+                    violations.push(serde_json::json!({"where": format!("{}:{}", name, i + 1), "what": format!("`{}` in non-test code: state or input outside the Lexer value", b)}));
+                }
+            }
+            // debug-only observer state must be read only in debug-only code
+            for obs in ["last_state", "prev_char"] {
+                if code.contains(obs) {
+                    *detail.entry(format!("uses of {obs}")).or_default() += 1;
+                    let ctx_ok = in_dbg || code.contains("debug_assert") || code.contains("cfg(debug_assertions)") || code.contains("cfg!(debug_assertions)")
+                        || (1..=12).any(|k| i >= k && {
+                            let p = lines[i - k].split("//").next().unwrap_or("");
+                            p.contains("cfg(debug_assertions)") || p.contains("debug_assert") || p.contains("cfg!(debug_assertions)")
+                        });
+                    if !ctx_ok {
+                        violations.push(serde_json::json!({"where": format!("{}:{}", name, i + 1), "what": format!("debug-only observer state `{obs}` used outside debug-only code")}));
+                    }
+                }
+            }
+            if code.contains("unsafe") {
+                *detail.entry("unsafe occurrences".into()).or_default() += 1;
+            }
+        }
+    }
+    Ok(serde_json::json!({
+        "sites": sites, "violations": violations, "samples": [], "detail": detail,
+        "trusted": ["shared-state scan is textual/syntactic over lexer/*.rs and lib.rs (non-test code): dependencies (phf, lexical, encoding, unicode-ident, bit-vec) are assumed free of global mutable state"],
+    }))
+}
+
+pub fn run(pos: &[String], opts: &HashMap<String, String>) -> Result<i32, String> {
+    let name = pos.first().ok_or("scan name")?;
+    let src = opts.get("src").ok_or("missing --src")?;
+    let j = match name.as_str() {
+        "frame" => frame(src)?,
+        "shared_state" => shared_state(src)?,
+        other => return Err(format!("unknown scan `{other}`")),
+    };
+    let s = serde_json::to_string_pretty(&j).unwrap();
+    if let Some(o) = opts.get("out") {
+        std::fs::write(o, &s).map_err(|e| e.to_string())?;
+    }
+    println!("{s}");
+    Ok(0)
 }
